@@ -152,6 +152,19 @@ class Ctx:
         if k not in s.sq:
             L = z3.Real('spec!sqrt%d' % len(s.sq)); s.sq[k] = L; s.hyps += [L >= 0, L * L == X]
         return s.sq[k]
+    def unit(s, v):
+        """v/|v| as specification-side variables n with n_j * |v| == v_j (numeric on replay)"""
+        v = [z3.simplify(rv(x)) for x in v]; L = s.sqrt(norm2(v))
+        if all(is_num(x) for x in v):
+            l = float(z3val_to_fraction(L)); return [z3.RealVal(repr(float(z3val_to_fraction(x)) / l)) if l else x for x in v]
+        k = 'unit:' + ' '.join(x.sexpr() for x in v)
+        if k not in s.sq:
+            n = [z3.Real('spec!n%d_%d' % (len(s.sq), j)) for j in range(len(v))]; s.sq[k] = n; s.hyps += [nj * L == x for nj, x in zip(n, v)]
+        return s.sq[k]
+def rodrigues(cs, sn, n):
+    """rotation with cosine cs / sine sn about the unit axis n:  cs I + (1-cs) n n^T + sn [n]x"""
+    K = [[ZERO, -n[2], n[1]], [n[2], ZERO, -n[0]], [-n[1], n[0], ZERO]]
+    return [[(cs if r == c else ZERO) + (1 - cs) * n[r] * n[c] + sn * K[r][c] for c in range(3)] for r in range(3)]
 def mkex(unit, mode, unwind):
     ex = Exec(unit.module(), fmode='real' if mode == 'real' else 'fp', unwind=unwind)
     if mode == 'real':
@@ -180,18 +193,13 @@ def job_elementary(t):
         # translate(M, v) == M * T(v)
         chk(S, U, 'translate_' + t, lambda i, o, T: mat_goals('translate==M*T(v)', M4of(o[0]), mmul(M4of(i[0]), translation(i[1]))), bounds='all M, v',
             mutant=lambda i, o, T: [('T(v)*M', REq(rv(o[0][12]), mmul(translation(i[1]), M4of(i[0]))[0][3]))])
-        # rotate(M, a, v) == M * Rodrigues(a, v/|v|): both sides multiplied by |v|^2
-        def spec_rot(i, o, T):
-            Mx, a, v = M4of(i[0]), i[1][0], i[2]; L = T.sqrt(norm2(v)); L2 = norm2(v)
-            W = mmul(Mx, embed(rodrigues_scaled(T.cos(a), T.sin(a), v, L)))
-            # embed() puts 1 on the diagonal of the 4th row/column; the scaled product needs |v|^2 there
-            W = [[W[r][c] if c < 3 else Mx[r][3] * L2 for c in range(4)] for r in range(4)]
-            return mat_goals('rotate*|v|^2==M*Rodrigues*|v|^2', M4of(o[0]), W, L2) + mat_goals('rotate_slow*|v|^2==M*Rodrigues*|v|^2', M4of(o[1]), W, L2)
-        def mut_rot(i, o, T):
-            Mx, a, v = M4of(i[0]), i[1][0], i[2]; L = T.sqrt(norm2(v)); L2 = norm2(v)
-            W = mmul(Mx, embed(rodrigues_scaled(T.cos(a), -T.sin(a), v, L)))
-            return [('opposite-sense', REq(rv(o[0][1]) * L2, W[1][0]))]
-        chk(S, U, 'rotate_' + t, spec_rot, lambda i: [axis_nz(i[2])], bounds='all M, all angles (sin/cos Ackermannised), all axes v != 0', mutant=mut_rot)
+        # rotate(M, a, v) == M * Rodrigues(a, v/|v|)
+        def spec_rot(i, o, T, sense=1):
+            Mx, a, v = M4of(i[0]), i[1][0], i[2]
+            return mmul(Mx, embed(rodrigues(T.cos(a), sense * T.sin(a), T.unit(v))))
+        chk(S, U, 'rotate_' + t, lambda i, o, T: mat_goals('rotate==M*Rodrigues(a,v/|v|)', M4of(o[0]), spec_rot(i, o, T)) + mat_goals('rotate_slow==M*Rodrigues(a,v/|v|)', M4of(o[1]), spec_rot(i, o, T)),
+            lambda i: [axis_nz(i[2])], bounds='all M, all angles (sin/cos Ackermannised), all axes v != 0',
+            mutant=lambda i, o, T: [('opposite-sense', REq(rv(o[0][1]), spec_rot(i, o, T, -1)[1][0]))])
         chk(S, U, 'scale_' + t, lambda i, o, T: mat_goals('scale==M*diag(v,1)', M4of(o[0]), mmul(M4of(i[0]), embed(diag(i[1])))) + mat_goals('scale_slow==M*diag(v,1)', M4of(o[1]), mmul(M4of(i[0]), embed(diag(i[1])))),
             bounds='all M, v', mutant=lambda i, o, T: [('diag*M', REq(rv(o[0][1]), mmul(embed(diag(i[1])), M4of(i[0]))[1][0]))])
         def spec_sh(i, o, T):
@@ -201,15 +209,226 @@ def job_elementary(t):
             mutant=lambda i, o, T: [('transposed-shear', REq(rv(o[0][1]), mmul(M4of(i[0]), transpose(shear_doc(i[1], i[2])))[1][0]))])
         # gtx/transform: the one-argument builders are the elementary matrices themselves
         def spec_gtx(i, o, T):
-            a, v = i[0][0], i[1]; L = T.sqrt(norm2(v)); L2 = norm2(v)
-            W = embed(rodrigues_scaled(T.cos(a), T.sin(a), v, L)); W[3][3] = L2
-            return (mat_goals('translate(v)==T(v)', M4of(o[0]), translation(v)) + mat_goals('rotate(a,v)*|v|^2==Rodrigues*|v|^2', M4of(o[1]), W, L2)
+            a, v = i[0][0], i[1]
+            return (mat_goals('translate(v)==T(v)', M4of(o[0]), translation(v)) + mat_goals('rotate(a,v)==Rodrigues(a,v/|v|)', M4of(o[1]), embed(rodrigues(T.cos(a), T.sin(a), T.unit(v))))
                     + mat_goals('scale(v)==diag(v,1)', M4of(o[2]), embed(diag(v))))
         chk(S, U, 'gtx_transform_' + t, spec_gtx, lambda i: [axis_nz(i[1])], bounds='all angles, all v != 0')
+    return run
+
+# ------------------------------------------------------------------------------------------------ jobs: gtx helpers
+def unit3(v): return norm2(v) == 1
+def job_rna(t):
+    def run(S):
+        def spec(i, o, T, sense=1):
+            Mx, a, n = M4of(i[0]), i[1][0], i[2]
+            return mmul(Mx, embed(rodrigues(T.cos(a), sense * T.sin(a), n)))
+        chk(S, U, 'rna_' + t, lambda i, o, T: mat_goals('rotateNormalizedAxis==M*Rodrigues(a,n)', M4of(o[0]), spec(i, o, T)), lambda i: [unit3(i[2])], bounds='all M, angles, unit axes n',
+            mutant=lambda i, o, T: [('opposite-sense', REq(rv(o[0][1]), spec(i, o, T, -1)[1][0]))])
+        # quaternion form: q * (cos(a/2), n sin(a/2)); the rotation it denotes is rotmat(q) * Rodrigues(a, n) (double-angle identities instantiated for a/2)
+        def setup(res, T):
+            realtrig.trig_double(res.ex, res.ins[1][0] * z3.RealVal('1/2')); return []
+        def specq(i, o, T):
+            q, a, n = i[0], i[1][0], i[2]; h = a * z3.RealVal('1/2'); r = [T.cos(h)] + [x * T.sin(h) for x in n]
+            g = vec_goals('rotateNormalizedAxis(q)==q*(cos a/2, n sin a/2)', o[0], qmul(q, r))
+            return g + mat_goals('rotmat(result)==rotmat(q)*Rodrigues(a,n)', qrotmat([rv(x) for x in o[0]]), mmul(qrotmat(q), rodrigues(T.cos(a), T.sin(a), n)))
+        chk(S, U, 'rnaq_' + t, specq, lambda i: [unit3(i[2]), norm2(i[0]) == 1], setup=setup, bounds='all unit q, angles, unit axes n')
+    return run
+
+def sh2(k, r, c):
+    """2-D shear as a 3x3 homogeneous matrix: coordinate r gains k times coordinate c"""
+    m = ident(3); m[r][c] = rv(k); return m
+def job_transform2(t):
+    def run(S):
+        # shearX2D: 'shearing on X axis' = x' = x + s*y (the convention of ext shear(): l_x displaces x); shearY2D: y' = y + s*x
+        def spec2(i, o, T):
+            Mx, k = M3of(i[0]), i[1][0]
+            return mat_goals('shearX2D==M*[x+=s*y]', M3of(o[0]), mmul(Mx, sh2(k, 0, 1))) + mat_goals('shearY2D==M*[y+=s*x]', M3of(o[1]), mmul(Mx, sh2(k, 1, 0)))
+        chk(S, U, 'shear2D_' + t, spec2, bounds='all M, s', mutant=lambda i, o, T: [('transposed', REq(rv(o[0][1]), mmul(M3of(i[0]), sh2(i[1][0], 1, 0))[1][0]))])
+        def sh3(ax, s_, t_):
+            """X-shear in the convention of ext shear(): the sheared coordinate gains multiples of the two others, in coordinate order"""
+            m = ident(4); oth = [k for k in range(3) if k != ax]; m[ax][oth[0]] = rv(s_); m[ax][oth[1]] = rv(t_); return m
+        def spec3(i, o, T, tr=False):
+            Mx, (s_, t_) = M4of(i[0]), i[1]; g = []
+            for ax, nm in enumerate('XYZ'):
+                E = sh3(ax, s_, t_)
+                g += mat_goals('shear%s3D==M*%s' % (nm, 'transpose(Shear_%s)' % nm if tr else 'Shear_%s' % nm), M4of(o[ax]), mmul(Mx, transpose(E) if tr else E))
+            return g
+        # column-vector reading (the one of translate/rotate/scale/shear): known finding; the row-vector reading (transposed elementary matrix) is what the code implements
+        chk(S, U, 'shear3D_' + t, lambda i, o, T: spec3(i, o, T), name='c09.shear3D_%s.colvec' % t, known=['KF-C09-shear3D-transposed'], bounds='all M, s, t; elementary matrix in the convention of ext shear()')
+        chk(S, U, 'shear3D_' + t, lambda i, o, T: spec3(i, o, T, True), name='c09.shear3D_%s.rowvec' % t, witness=False, side=False, bounds='all M, s, t; transposed elementary matrix')
+        def specr(i, o, T, dim):
+            Mx = (M3of if dim == 2 else M4of)(i[0]); n = i[1]
+            P = embed([[n[r] * n[c] for c in range(dim)] for r in range(dim)], len(Mx))
+            for k in range(dim, len(Mx)): P[k][k] = ZERO
+            I = ident(len(Mx))
+            Rf = [[I[r][c] - 2 * P[r][c] for c in range(len(Mx))] for r in range(len(Mx))]; Pj = [[I[r][c] - P[r][c] for c in range(len(Mx))] for r in range(len(Mx))]
+            return mat_goals('reflect%dD==M*(I-2nn^T)' % dim, (M3of if dim == 2 else M4of)(o[0]), mmul(Mx, Rf)) + mat_goals('proj%dD==M*(I-nn^T)' % dim, (M3of if dim == 2 else M4of)(o[1]), mmul(Mx, Pj))
+        chk(S, U, 'reflproj2D_' + t, lambda i, o, T: specr(i, o, T, 2), bounds='all M, all normals (x, y components used; Householder / projector formulas, exact for unit normals)')
+        chk(S, U, 'reflproj3D_' + t, lambda i, o, T: specr(i, o, T, 3), bounds='all M, all normals')
+    return run
+
+def job_scalebias(t):
+    """bit-precise: scaleBias(s, b) must return [[s,0,0,b],[0,s,0,b],[0,0,s,b],[0,0,0,1]] - the code leaves the 9 off-diagonal entries uninitialised (known finding)"""
+    def run(S):
+        w = 32 if t == 'f32' else 64
+        def spec(i, o):
+            s_, b_ = i[0]; g = []
+            for c in range(4):
+                for r in range(4):
+                    want = s_ if (r == c and r < 3) else (b_ if (c == 3 and r < 3) else z3.BitVecVal(float_to_bits(1.0 if r == c else 0.0, w), w))
+                    g.append(('scaleBias[r%dc%d]' % (r, c), o[0][c * 4 + r].bits == want))
+            return g
+        S.check_fn(U, 'scaleBias_' + t, spec, None, mode='fp', known=['KF-C09-scaleBias-uninitialised'], validate=0, bounds='all bit patterns; entries are copies of the arguments or the constants 0, 1')
+    return run
+
+def job_2d(t):
+    def run(S):
+        def spec(i, o, T):
+            Mx, v, a = M3of(i[0]), i[1], i[2][0]
+            return (mat_goals('translate2d==M*T(v)', M3of(o[0]), mmul(Mx, translation(v))) + mat_goals('rotate2d==M*Rz(a)', M3of(o[1]), mmul(Mx, Rz(T.cos(a), T.sin(a))))
+                    + mat_goals('scale2d==M*diag(v,1)', M3of(o[2]), mmul(Mx, embed(diag(v), 3))))
+        chk(S, U, 'tf2d_' + t, spec, bounds='all M (3x3), v, angles', mutant=lambda i, o, T: [('opposite-sense', REq(rv(o[1][1]), mmul(M3of(i[0]), Rz(T.cos(i[2][0]), -T.sin(i[2][0])))[1][0]))])
+        # shearX: documented 'horizontal (parallel to the x axis) shear' = x' = x + k*y; shearY: 'vertical (parallel to the y axis)' = y' = y + k*x
+        def specs(i, o, T, tr=False):
+            Mx, k = M3of(i[0]), i[1][0]; ex_, ey_ = sh2(k, 0, 1), sh2(k, 1, 0)
+            if tr: ex_, ey_ = transpose(ex_), transpose(ey_)
+            return mat_goals('shearX==M*%s' % ('transpose(Hshear)' if tr else 'Hshear'), M3of(o[0]), mmul(Mx, ex_)) + mat_goals('shearY==M*%s' % ('transpose(Vshear)' if tr else 'Vshear'), M3of(o[1]), mmul(Mx, ey_))
+        chk(S, U, 'shear2d_' + t, lambda i, o, T: specs(i, o, T), name='c09.shear2d_%s.colvec' % t, known=['KF-C09-shear2d-transposed'], bounds='all M (3x3), k; documented horizontal / vertical shear acting on column vectors')
+        chk(S, U, 'shear2d_' + t, lambda i, o, T: specs(i, o, T, True), name='c09.shear2d_%s.rowvec' % t, witness=False, side=False, bounds='all M (3x3), k; transposed elementary matrix')
+    return run
+
+def job_rotvec(t):
+    def run(S):
+        chk(S, U, 'rv2_' + t, lambda i, o, T: vec_goals('rotate(vec2,a)==Rz(a)v', o[0], mvec(Rz(T.cos(i[1][0]), T.sin(i[1][0])), list(i[0]) + [ZERO])[:2]), bounds='all v, angles',
+            mutant=lambda i, o, T: [('opposite-sense', REq(rv(o[0][0]), mvec(Rz(T.cos(i[1][0]), -T.sin(i[1][0])), list(i[0]) + [ZERO])[0]))])
+        def specn(i, o, T):
+            v, a, n = i[0], i[1][0], i[2]; R = rodrigues(T.cos(a), T.sin(a), T.unit(n))
+            return vec_goals('rotate(vec3,a,n)==Rodrigues(a,n/|n|)v', o[0], mvec(R, v[:3])) + vec_goals('rotate(vec4,a,n)==(Rodrigues v.xyz, v.w)', o[1], mvec(R, v[:3]) + [v[3]])
+        chk(S, U, 'rvn_' + t, specn, lambda i: [axis_nz(i[2])], bounds='all v, angles, normals != 0')
+        for nm, n in (('rvxyz3_', 3), ('rvxyz4_', 4)):
+            def spec(i, o, T, n=n):
+                v, a = i[0], i[1][0]; c, s_ = T.cos(a), T.sin(a); g = []
+                for k, (ax, R) in enumerate((('X', Rx), ('Y', Ry), ('Z', Rz))):
+                    g += vec_goals('rotate%s(vec%d)==R%s(a)v' % (ax, n, ax.lower()), o[k], mvec(R(c, s_), v[:3]) + list(v[3:]))
+                return g
+            chk(S, U, nm + t, spec, bounds='all v, angles', mutant=lambda i, o, T: [('opposite-sense', REq(rv(o[1][0]), mvec(Ry(T.cos(i[1][0]), -T.sin(i[1][0])), i[0][:3])[0]))])
+    return run
+
+# ------------------------------------------------------------------------------------------------ jobs: lookAt
+def pre_look(i):
+    eye, ctr, up = i; d = [c - e for c, e in zip(ctr, eye)]
+    return [norm2(d) > 0, norm2(cross(d, up)) > 0]
+def look_goals(i, o, T, hand):
+    """rigid transform (proper rotation + translation, last row 0 0 0 1) taking eye to the origin, center to (0, 0, -|d|) (RH) / (0, 0, +|d|) (LH), and up into the half-plane x = 0, y > 0"""
+    eye, ctr, up = i; Mx = M4of(o[0]); R = [row[:3] for row in Mx[:3]]; d = [c - e for c, e in zip(ctr, eye)]
+    sg = -1 if hand == 'RH' else 1
+    g = vec_goals('M*(eye,1)==(0,0,0,1)', mvec(Mx, list(eye) + [ONE]), [ZERO, ZERO, ZERO, ONE])
+    pc = mvec(Mx, list(ctr) + [ONE])
+    g += [('M*(center,1).x==0', REq(pc[0], ZERO)), ('M*(center,1).y==0', REq(pc[1], ZERO)), ('M*(center,1).w==1', REq(pc[3], ONE)),
+          ('M*(center,1).z==%s|center-eye|' % ('-' if sg < 0 else '+'), REq(pc[2], sg * T.sqrt(norm2(d))))]
+    pu = mvec(R, up)
+    g += [('R*up.x==0', REq(pu[0], ZERO)), ('R*up.y>0', RGoal('gt', pu[1], ZERO))]
+    RRt = mmul(R, transpose(R))
+    g += [('R*R^T[r%dc%d]' % (r, c), REq(RRt[r][c], ONE if r == c else ZERO)) for r in range(3) for c in range(r, 3)]
+    g += [('det(R)==1', REq(det3(R), ONE))]
+    g += [('lastrow[%d]' % c, REq(Mx[3][c], ONE if c == 3 else ZERO)) for c in range(4)]
+    return g
+def job_lookat(t, cfg):
+    Un = U if cfg == 'RH' else ULH
+    def run(S):
+        vs = (('RH', 'RH'), ('LH', 'LH'), ('', cfg)) if cfg == 'RH' else (('', cfg),)
+        for v, hand in vs:
+            chk(S, Un, 'lookAt%s_%s' % (v, t), lambda i, o, T, hand=hand: look_goals(i, o, T, hand), pre_look, bounds='eye != center, up not parallel to center-eye; config ' + cfg,
+                mutant=lambda i, o, T, hand=hand: [('other-handedness', dict(look_goals(i, o, T, 'LH' if hand == 'RH' else 'RH'))['M*(center,1).z==%s|center-eye|' % ('+' if hand == 'RH' else '-')])])
+    return run
+def job_lookat_dispatch(t, cfg):
+    """[bit] lookAt is exactly the variant selected by the configured handedness (identical IEEE terms), and differs from the other one"""
+    Un = U if cfg == 'RH' else ULH; other = 'LH' if cfg == 'RH' else 'RH'
+    def run(S):
+        S.diff_fn(Un, Un, 'lookAt_' + t, fname_b='lookAt%s_%s' % (cfg, t), mode='fp', name='c09.dispatch.%s.lookAt_%s==lookAt%s' % (cfg, t, cfg), timeout=S.cap(10, 30), bounds='bit-exact, all bit patterns; config ' + cfg,
+                  label_a='lookAt', label_b='lookAt' + cfg)
+        if any(x.startswith('c09.dispatch.%s.lookAt_%s==' % (cfg, t)) for x in S.inconclusive):
+            # the terms differ and the solver found neither proof nor model over symbolic IEEE sqrt/div: help the model search with a pinned view (a verdict still needs the model reproduced natively)
+            w_ = 32 if t == 'f32' else 64
+            pin = lambda i: [x == z3.BitVecVal(float_to_bits(v, w_), w_) for row, vals in zip(i, ((1.0, 2.0, 3.0), (0.5, -1.0, 7.0), (0.0, 1.0, 0.25))) for x, v in zip(row, vals)]
+            S.diff_fn(Un, Un, 'lookAt_' + t, pin, fname_b='lookAt%s_%s' % (cfg, t), mode='fp', name='c09.dispatch.%s.lookAt_%s==lookAt%s.pinned' % (cfg, t, cfg), timeout=30, mandatory=False,
+                      bounds='model search with pinned inputs', label_a='lookAt', label_b='lookAt' + cfg)
+        if S.quick: return
+        r1 = sym_call(Un, 'lookAt_' + t, mode='fp'); r2 = sym_call(Un, 'lookAt%s_%s' % (other, t), ins=r1.ins, mode='fp')
+        w = 32 if t == 'f32' else 64       # (model search over symbolic IEEE sqrt/div does not finish: the twin is decided on the pinned view eye = 0, center = -z, up = +y)
+        fin = [x == z3.BitVecVal(float_to_bits(v, w), w) for row, vals in zip(r1.ins, ((0.0, 0.0, 0.0), (0.0, 0.0, -1.0), (0.0, 1.0, 0.0))) for x, v in zip(row, vals)]
+        S.prove('c09.dispatch.%s.lookAt_%s!=lookAt%s.twin' % (cfg, t, other), z3.And(*[same_float(a, b) for a, b in zip(r1.outs[0], r2.outs[0])]), fin + r1.axioms + r2.axioms, timeout=S.cap(30, 60), kind='mutant-twin',
+                expect='sat', mandatory=False, functions=['w_lookAt_' + t])
+    return run
+
+# ------------------------------------------------------------------------------------------------ jobs: gtx/rotate_vector orientation, gtx/matrix_interpolation
+def eps_of(t): return z3.Q(1, 2 ** (23 if t == 'f32' else 52))
+def absr(x): return z3.If(x >= 0, x, -x)
+def inv_call(ex, fn, k=0):
+    """(result variable, argument terms) of the k-th distinct acos/asin/... call executed by the code"""
+    return [(v, argt) for key, (v, argt) in ex.trig.items() if key[0] == fn][k]
+def job_orientation(t):
+    """chain: (here) orientation(N,Up) == Rodrigues(A, unit(Up x N)) with A = acos(N.Up), cos A = N.Up, sin A >= 0;  (lemmas.orientation.*) such a matrix is a proper rotation that takes Up to N"""
+    def run(S):
+        eps = eps_of(t)
+        def near(i): return z3.And(*[absr(a - b) <= eps for a, b in zip(i[0], i[1])])      # equal(Normal, Up, epsilon): |a-b| <= eps per component (ext/vector_relational.hpp)
+        def setup(res, T):      # instance of lemmas.orientation.lagrange (|Up x N|^2 = |Up|^2|N|^2 - (N.Up)^2) for the unit inputs
+            N, Up = res.ins; return [norm2(cross(Up, N)) == 1 - dot(N, Up) * dot(N, Up)]
+        def spec(i, o, T):
+            N, Up = i
+            if is_num(N[0]):     # numeric replay
+                A = z3.RealVal(repr(math.acos(max(-1.0, min(1.0, float(z3val_to_fraction(z3.simplify(dot(N, Up)))))))))
+                cA, sA, arg = T.cos(A), T.sin(A), dot(N, Up)
+            else:
+                A, argt = inv_call(T.ex, 'acos'); cA, sA, arg = T.cos(A), T.sin(A), argt[0]
+            g = mat_goals('orientation==Rodrigues(A,unit(Up x N))', M4of(o[0]), embed(rodrigues(cA, sA, T.unit(cross(Up, N)))))
+            return g + [('acos.arg==N.Up', REq(arg, dot(N, Up))), ('cos(A)==N.Up', REq(cA, dot(N, Up))), ('sin(A)>=0', RGoal('ge', sA, ZERO))]
+        chk(S, U, 'orientation_' + t, spec, lambda i: [unit3(i[0]), unit3(i[1]), norm2(cross(i[1], i[0])) > 0, z3.Not(near(i))], setup=setup,
+            bounds='unit Normal, unit Up, not parallel, not within epsilon of each other', mutant=lambda i, o, T: [('cos(A)==-N.Up', REq(T.cos(inv_call(T.ex, 'acos')[0]), -dot(i[0], i[1])))])
+        chk(S, U, 'orientation_' + t, lambda i, o, T: mat_goals('orientation(N,Up)==I', M4of(o[0]), ident(4)), lambda i: [near(i)], name='c09.orientation_%s.near' % t, side=False,
+            bounds='Normal within epsilon of Up (component-wise): identity')
+    return run
+def job_lemmas(S):
+    """code-free links of the lemma chains (polynomial identities and small scalar facts); every link is a discharged obligation"""
+    P = lambda n, g, h=(): S.prove('c09.lemmas.' + n, g, list(h), timeout=S.cap(30, 90), solver='nra', kind='lemma', functions=['(specification-side lemma)'])
+    N = list(z3.Reals('N0 N1 N2')); Up = list(z3.Reals('U0 U1 U2')); a = list(z3.Reals('a0 a1 a2')); n = list(z3.Reals('n0 n1 n2'))
+    L, c, s_, X, w, xk, uk, Nk, nk, q_, LL, A_ = z3.Reals('L c s X w xk uk Nk nk q LL A')
+    # orientation: R = Rodrigues(c, s, n) with c = N.Up, s >= 0, s^2 + c^2 = 1, n L = Up x N, L = |Up x N| > 0, |N| = |Up| = 1  ==>  R Up = N, R proper rotation
+    P('orientation.lagrange: |Up x N|^2 == |Up|^2 |N|^2 - (N.Up)^2', norm2(cross(Up, N)) == norm2(Up) * norm2(N) - dot(N, Up) * dot(N, Up))
+    P('orientation.perp: (Up x N).Up == 0', dot(cross(Up, N), Up) == 0)
+    for k in range(3):
+        P('orientation.triple[%d]: ((Up x N) x Up) == N |Up|^2 - Up (Up.N)' % k, cross(cross(Up, N), Up)[k] == N[k] * norm2(Up) - Up[k] * dot(Up, N))
+        P('orientation.n-cross[%d]: (n x Up) L == a x Up  given n L == a' % k, cross(n, Up)[k] * L == cross(a, Up)[k], [n[j] * L == a[j] for j in range(3)])
+        P('orientation.apply[%d]: (Rodrigues(c,s,n) Up)_k == c Up_k + (1-c)(n.Up) n_k + s (n x Up)_k' % k, mvec(rodrigues(c, s_, n), Up)[k] == c * Up[k] + (1 - c) * dot(n, Up) * n[k] + s_ * cross(n, Up)[k])
+    P('orientation.n-dot: (n.Up) L == a.Up  given n L == a', dot(n, Up) * L == dot(a, Up), [n[j] * L == a[j] for j in range(3)])
+    P('orientation.s==L: s, L >= 0, s^2 + c^2 == 1, L^2 == X == 1 - c^2', s_ == L, [s_ >= 0, L >= 0, s_ * s_ + c * c == 1, L * L == X, X == 1 - c * c])
+    P('orientation.final: c u + (1-c) w n + s x == N_k  given w L == 0, x L == N_k - c u, s == L > 0', c * uk + (1 - c) * w * nk + s_ * xk == Nk, [w * L == 0, L > 0, xk * L == Nk - c * uk, s_ == L])
+    P('unit.n: |n|^2 L^2 == |a|^2  given n L == a', norm2(n) * L * L == norm2(a), [n[j] * L == a[j] for j in range(3)])
+    P('unit.q: q == 1  given q LL == A, LL == A, LL > 0', q_ == 1, [q_ * LL == A_, LL == A_, LL > 0])
+    # every Rodrigues matrix with c^2 + s^2 = 1 about a unit axis is a proper rotation fixing the axis
+    R = rodrigues(c, s_, n); hy = [c * c + s_ * s_ == 1, norm2(n) == 1]; RRt = mmul(R, transpose(R))
+    for r in range(3):
+        for k in range(r, 3): P('rodrigues.orthonormal[r%dc%d]' % (r, k), RRt[r][k] == (1 if r == k else 0), hy)
+        P('rodrigues.fixes-axis[%d]' % r, mvec(R, n)[r] == n[r], hy)
+    P('rodrigues.det==1', det3(R) == 1, hy)
+def job_axisanglematrix(t):
+    def run(S):
+        def spec(i, o, T):
+            v, a = i[0], i[1][0]; W = embed(rodrigues(T.cos(a), T.sin(a), T.unit(v)))
+            return mat_goals('axisAngleMatrix==Rodrigues(a,v/|v|)', M4of(o[0]), W) + mat_goals('axisAngleMatrix==rotate(I,a,v)', M4of(o[0]), M4of(o[1]))
+        chk(S, U, 'axisAngleMatrix_' + t, spec, lambda i: [axis_nz(i[0])], bounds='all angles, axes != 0',
+            mutant=lambda i, o, T: [('opposite-sense', REq(rv(o[0][1]), embed(rodrigues(T.cos(i[1][0]), -T.sin(i[1][0]), T.unit(i[0])))[1][0]))])
+        def spece(i, o, T):
+            Mx = M4of(i[0]); return mat_goals('extractMatrixRotation', M4of(o[0]), embed([row[:3] for row in Mx[:3]]))
+        chk(S, U, 'extractRot_' + t, spece, bounds='all M: upper-left 3x3 block, identity elsewhere')
     return run
 
 def jobs(tier):
     J = []
     for t in FT:
-        J += [('elementary_' + t, job_elementary(t))]
+        J += [('elementary_' + t, job_elementary(t)), ('rna_' + t, job_rna(t)), ('transform2_' + t, job_transform2(t)), ('scalebias_' + t, job_scalebias(t)), ('2d_' + t, job_2d(t)), ('rotvec_' + t, job_rotvec(t)),
+              ('orientation_' + t, job_orientation(t)), ('axisanglematrix_' + t, job_axisanglematrix(t))]
+        for cfg in ('RH', 'LH'):
+            J += [('lookat_%s_%s' % (cfg, t), job_lookat(t, cfg)), ('lookat_dispatch_%s_%s' % (cfg, t), job_lookat_dispatch(t, cfg))]
+    J.append(('lemmas', job_lemmas))
     return J
